@@ -83,10 +83,28 @@ def run_property(spec):
                 obligations.append(("proof", "theorem:" + t, not bad,
                                     "closed under the global context" if not bad
                                     else "depends on " + ", ".join(bad)))
+    # further theorem files of the same property (spec["more"] = [{"module", "target", "theorems"}])
+    for extra in spec.get("more", []):
+        r2 = lib.build([extra["target"]])
+        obligations.append(("proof", "coqc:" + extra["target"], r2.ok, "" if r2.ok else r2.error_text[-1500:]))
+        if r2.ok:
+            ax2, out2 = lib.print_assumptions(extra["module"], extra["theorems"])
+            if ax2 is None:
+                obligations.append(("proof", "print-assumptions:" + extra["module"], False, out2[-1500:]))
+            else:
+                for t in extra["theorems"]:
+                    bad = [a for a in ax2[t] if a not in lib.ALLOWED_AXIOMS]
+                    axioms[t] = ax2[t]
+                    obligations.append(("proof", "theorem:" + t, not bad,
+                                        "closed under the global context" if not bad
+                                        else "depends on " + ", ".join(bad)))
+            if lib.tier() == "thorough":
+                ok, summary = lib.coqchk(extra["module"])
+                obligations.append(("proof", "coqchk -o " + extra["module"], ok, summary))
     if proofs_ok and lib.tier() == "thorough":
         ok, summary = lib.coqchk(spec["module"])
         obligations.append(("proof", "coqchk -o " + spec["module"], ok, summary))
-    bad_tokens = lib.forbidden_tokens(spec["targets"])
+    bad_tokens = lib.forbidden_tokens(spec["targets"] + [e["target"] for e in spec.get("more", [])])
     obligations.append(("proof", "no-admit-no-axiom-grep", not bad_tokens, "; ".join(bad_tokens)))
 
     # 3. correspondence + oracle on the implementation
@@ -148,7 +166,8 @@ def run_property(spec):
         "trusted_base": spec.get("trusted_base", []),
         "obligation_list": [{"kind": k, "name": n, "ok": ok, "detail": d[:300]}
                             for k, n, ok, d in obligations],
-        "theorems": {t: ("closed" if not axioms.get(t) else axioms[t]) for t in spec["theorems"]},
+        "theorems": {t: ("closed" if not axioms.get(t) else axioms[t])
+                     for t in list(spec["theorems"]) + [x for e in spec.get("more", []) for x in e["theorems"]]},
         "evaluations": corr.cases,
         "distinct_nontrivial": corr.nontrivial,
         "rule": corr.rule,
